@@ -85,8 +85,9 @@ type lpacket struct {
 }
 
 type lcfg struct {
-	n, t  int
-	fast  bool
+	n, t    int
+	reshare string // "": fresh; "grow": the 3 members of an earlier run plus one newcomer (n = 4)
+	fast    bool
 	fault fault
 	dups  int // duplicate deliveries allowed in one execution
 	bound int // deviations from the canonical schedule (-1: unbounded)
@@ -101,7 +102,11 @@ func (l lcfg) String() string {
 	if l.bound >= 0 {
 		b = fmt.Sprintf("<=%d deviations", l.bound)
 	}
-	return fmt.Sprintf("protocol n=%d t=%d %s; %s; %s, %d duplicate deliveries", l.n, l.t, m, l.fault, b, l.dups)
+	r := ""
+	if l.reshare != "" {
+		r = " reshare=" + l.reshare
+	}
+	return fmt.Sprintf("protocol n=%d t=%d %s%s; %s; %s, %d duplicate deliveries", l.n, l.t, m, r, l.fault, b, l.dups)
 }
 
 type lev struct {
@@ -130,6 +135,22 @@ type lworld struct {
 	dupLeft int
 	forgedR bool
 	hang    string
+	oldPub  kyber.Point
+}
+
+var oldGroupCache *outcome
+
+// oldGroup is the honest fresh run (n=3, t=2) whose shares are reshared.
+func oldGroup() *outcome {
+	if oldGroupCache == nil {
+		oldGroupCache = runPedersen(pcfg{n: 3, t: 2, fault: fault{"none", -1, 0}, permNode: -1}, nil)
+		for _, nd := range oldGroupCache.nodes {
+			if nd.res == nil {
+				panic(fmt.Sprintf("harness: the honest fresh run for the old group does not complete: %v", nd.err))
+			}
+		}
+	}
+	return oldGroupCache
 }
 
 func (w *lworld) faulty(i int) bool { return w.cfg.fault.party >= 0 && i == w.cfg.fault.party%w.cfg.n }
@@ -144,13 +165,35 @@ func newWorld(cfg lcfg) *lworld {
 	var keys []km
 	for i := 0; i < cfg.n; i++ {
 		l, p := longterm(i, "fresh")
+		if cfg.reshare != "" && i >= 3 {
+			l, p = longterm(i, "proto-newcomer")
+		}
 		keys = append(keys, km{l, p})
 		newNodes = append(newNodes, dkg.Node{Index: uint32(i), Public: p})
+	}
+	var old *outcome
+	var oldNodes []dkg.Node
+	if cfg.reshare != "" {
+		old = oldGroup()
+		w.oldPub = old.nodes[0].res.Key.Commits[0]
+		for _, on := range old.nodes {
+			oldNodes = append(oldNodes, dkg.Node{Index: on.idx, Public: on.pub})
+		}
 	}
 	for i := 0; i < cfg.n; i++ {
 		s := mkSuite(fmt.Sprintf("proto-%d", i))
 		c := &dkg.Config{Suite: s, Longterm: keys[i].l, NewNodes: append([]dkg.Node{}, newNodes...), Threshold: uint32(cfg.t), Nonce: nonce,
 			Auth: schnorr.NewScheme(s), FastSync: cfg.fast, Reader: &zeroReader{label: fmt.Sprintf("proto-%d", i)}, UserReaderOnly: true}
+		if old != nil {
+			c.OldNodes = append([]dkg.Node{}, oldNodes...)
+			c.OldThreshold = uint32(len(old.nodes[0].res.Key.Commits))
+			if i < len(old.nodes) {
+				k := *old.nodes[i].res.Key
+				c.Share = &k
+			} else {
+				c.PublicCoeffs = old.nodes[0].res.Key.Commits
+			}
+		}
 		b := &lboard{deals: make(chan dkg.DealBundle), resps: make(chan dkg.ResponseBundle), justs: make(chan dkg.JustificationBundle)}
 		ph := &lphaser{ch: make(chan dkg.Phase)}
 		nd := &lnode{pn: &pnode{idx: uint32(i), long: keys[i].l, pub: keys[i].p, cfg: c}, board: b, ph: ph, got: map[string]int{}}
@@ -565,6 +608,9 @@ func (ex *lexplorer) leaf(w *lworld, trace []lev) {
 	if ex.cfg.fault.party >= 0 {
 		fk = ex.cfg.fault.kind
 	}
+	if ex.cfg.reshare != "" {
+		mode += "-reshare-" + ex.cfg.reshare
+	}
 	pk := fmt.Sprintf("C11/protocol/%s/%s", mode, fk)
 	id := ex.cfg.String() + "; schedule: " + traceString(trace)
 	o := &outcome{dealPub0: map[uint32]kyber.Point{}, complaintsAgainst: map[uint32]int{}}
@@ -611,7 +657,8 @@ func (ex *lexplorer) leaf(w *lworld, trace []lev) {
 	if ex.samples != nil && ex.samples[strings.Join(sig, " | ")] == "" {
 		ex.samples[strings.Join(sig, " | ")] = traceString(trace)
 	}
-	p := pcfg{n: ex.cfg.n, t: ex.cfg.t, fast: ex.cfg.fast, fault: ex.cfg.fault, permNode: -1}
+	p := pcfg{n: ex.cfg.n, t: ex.cfg.t, fast: ex.cfg.fast, reshare: ex.cfg.reshare, fault: ex.cfg.fault, permNode: -1}
+	o.oldPub = w.oldPub
 	c.CaseOnce(id, pk, func(x *vf.Ctx) {
 		c.Eval(1)
 		if w.hang != "" {
@@ -665,6 +712,17 @@ func protocolConfigs(c *vf.Check) []lcfg {
 				out = append(out, lcfg{n: n, t: 2, fast: fast, fault: f, bound: 1, dups: 1})
 			}
 		}
+	}
+	// resharing to a larger group (3 members + 1 newcomer), everybody honest
+	for _, fast := range []bool{false, true} {
+		b := 2
+		if c.Thorough() {
+			b = 3
+		}
+		if fast {
+			b-- // four receivers of seven packets each: the fast-sync space is an order of magnitude larger
+		}
+		out = append(out, lcfg{n: 4, t: 3, reshare: "grow", fast: fast, fault: none, bound: b})
 	}
 	return out
 }
